@@ -20,6 +20,13 @@ theorem defaultDialTimeout_eq_3s : Gen.defaultDialTimeoutNs = 3 * 1000000000 := 
 
 /-! ### concurrency bound -/
 
+/-- The semaphore of the model (`State.init N` has capacity N = Concurrency) exists for EVERY path through `dial`:
+    pinned by a fact regenerated from tcpdialer.go on every run — the `d.once.Do(…)` block that creates
+    `d.concurrencyCh` from `Concurrency` is the first statement of `dial`, before any `return` and before any call of
+    `tryDial` (in particular before the DisableDNSResolution shortcut). -/
+theorem semaphore_created_before_any_dial : Gen.dialOnceShape = (true, true, 0) := by decide
+
+
 /-- A TCPDialer with Concurrency N > 0 never has more than N dials in progress — for EVERY interleaving of the
     atomic steps of any number of concurrent `tryDial` calls; the dials in progress are exactly the occupied slots. -/
 theorem in_progress_le_N (N : Nat) (hN : 0 < N) (evs : List Ev) (s : State)
